@@ -1,0 +1,84 @@
+//go:build verif
+// +build verif
+
+package leveldb
+
+import (
+	"bytes"
+)
+
+// Verification exports for the byte-level transaction correspondence of property C11 (build tag verif only;
+// add-only, read-only): the parts of a transaction's and of the session's state that the Coq model of
+// db_transaction.go carries and that the existing exports (VerifTxnDump, VerifTxnEntries) do not show.
+
+// VerifTxnInfo is the scalar part of a transaction's private state.
+type VerifTxnInfo struct {
+	Closed       bool
+	CommitFailed bool
+	Seq          uint64
+	MemRef       int32 // tr.mem.getref(): 1 + iterators holding the private memdb
+	MemCap       int   // tr.mem.Capacity()
+	MemFree      int   // tr.mem.Free()
+	MemLen       int   // tr.mem.Len()
+	Tables       int
+	Rec          []byte // tr.rec as sessionRecord.encode writes it now
+}
+
+// VerifTxnScalars returns the scalar part of the transaction's state under its read lock.
+func VerifTxnScalars(tr *Transaction) VerifTxnInfo {
+	tr.lk.RLock()
+	defer tr.lk.RUnlock()
+	in := VerifTxnInfo{Closed: tr.closed, CommitFailed: tr.commitFailed, Seq: tr.seq, Tables: len(tr.tables)}
+	if tr.closed {
+		return in
+	}
+	in.MemRef = tr.mem.getref()
+	in.MemCap = tr.mem.Capacity()
+	in.MemFree = tr.mem.Free()
+	in.MemLen = tr.mem.Len()
+	var buf bytes.Buffer
+	rec := tr.rec // a copy: encode only resets the copy's err field
+	if err := rec.encode(&buf); err == nil {
+		in.Rec = buf.Bytes()
+	}
+	return in
+}
+
+// VerifSessionInfo is what a manifest record written by the session depends on, plus where the manifest is.
+type VerifSessionInfo struct {
+	JournalNum     int64
+	SeqNum         uint64 // s.stSeqNum
+	NextFileNum    int64
+	ManifestFailed bool
+	ManifestNum    int64
+	ManifestSize   int64 // bytes handed to the manifest's journal writer so far
+	MaxManifest    int64
+	CmpName        string
+	CompPtrs       [][]byte // by level; nil = none
+}
+
+// VerifSession reads the session scalars. The caller makes sure no commit is running (idle DB, or the
+// goroutine holding the write lock through an open transaction with no compaction in flight).
+func VerifSession(db *DB) VerifSessionInfo {
+	s := db.s
+	in := VerifSessionInfo{
+		JournalNum:     s.stJournalNum,
+		SeqNum:         s.stSeqNum,
+		NextFileNum:    s.nextFileNum(),
+		ManifestFailed: s.manifestFailed,
+		ManifestNum:    s.manifestFd.Num,
+		MaxManifest:    s.o.GetMaxManifestFileSize(),
+		CmpName:        s.icmp.uName(),
+	}
+	if s.manifest != nil {
+		in.ManifestSize = s.manifest.Size()
+	}
+	for _, ik := range s.stCompPtrs {
+		if ik == nil {
+			in.CompPtrs = append(in.CompPtrs, nil)
+		} else {
+			in.CompPtrs = append(in.CompPtrs, append([]byte{}, ik...))
+		}
+	}
+	return in
+}
